@@ -173,12 +173,67 @@ def _run_variant(var) -> Tuple[str, str, str]:
         drop_scratch(tmp)
 
 
+# ---------------------------------------------------------------------------
+# Patch corpora (unified diffs against /repo, written by independent sub-agents):
+#   seeded/<id>/patch.diff        property-breaking change, must be reported by the check of meta["property"]
+#   corpus/refactorings/*.diff    behaviour-preserving refactoring, every check must stay silent
+VERIF_DIR = os.path.dirname(os.path.dirname(os.path.abspath(__file__)))
+
+
+def patch_variants(props: Optional[List[str]] = None):
+    import glob
+    import json
+    out = []
+    for mp in sorted(glob.glob(os.path.join(VERIF_DIR, "seeded", "*", "meta.json"))):
+        try:
+            meta = json.load(open(mp))
+        except (OSError, ValueError):
+            continue
+        prop = meta.get("property")
+        if props is None or prop in props:
+            rules = (meta.get("detected_by") or {}).get(prop) or [None]
+            out.append(("seed-" + meta.get("id", os.path.basename(os.path.dirname(mp))), prop, "fire", os.path.join(os.path.dirname(mp), "patch.diff"), rules))
+    all_props = sorted(os.path.basename(x)[:-3].upper() for x in glob.glob(os.path.join(VERIF_DIR, "sa", "rules", "c[0-9][0-9].py")))
+    for pp in sorted(glob.glob(os.path.join(VERIF_DIR, "corpus", "refactorings", "*.diff"))):
+        for prop in (all_props if props is None else props):
+            out.append(("refactoring-%s/%s" % (os.path.basename(pp)[:-5], prop), prop, "silent", pp, [None]))
+    return out
+
+
+def _run_patch_variant(var) -> Tuple[str, str, str]:
+    id_, prop, kind, patch, rules = var
+    tmp = make_scratch()
+    try:
+        try:
+            r = subprocess.run(["patch", "-p1", "-s", "-f", "-d", str(tmp), "-i", patch], capture_output=True, text=True)
+        except OSError as ex:
+            return (id_, "skipped", "patch(1) unavailable: %s" % ex)
+        if r.returncode != 0:
+            return (id_, "skipped", "patch no longer applies to the current tree")
+        env = dict(os.environ, VERIF_REPO=str(tmp), VERIF_EVIDENCE_DIR=str(tmp / "ev"))
+        r = subprocess.run([P, "-m", "sa", "check", prop, "--tier", "quick"], cwd=VERIF_DIR, env=env, capture_output=True, text=True)
+        lines = [l.strip() for l in r.stdout.splitlines() if l.startswith("  ") or "ANALYSIS" in l]
+        if kind == "fire":
+            if r.returncode == 1:
+                return (id_, "ok", "reported (%s)" % ",".join(sorted({l.split(" ")[0] for l in lines})))
+            return (id_, "MISSED", "exit %d; expected a report by %s" % (r.returncode, rules))
+        if r.returncode == 0:
+            return (id_, "ok", "silent")
+        return (id_, "FALSE-ALARM", "exit %d: %s" % (r.returncode, " | ".join(l[:120] for l in lines)[:400]))
+    finally:
+        drop_scratch(tmp)
+
+
+def _run_any(var):
+    return _run_patch_variant(var) if len(var) == 5 else _run_variant(var)
+
+
 def run_selftest(props: Optional[List[str]] = None, jobs: int = 16, quiet=False) -> int:
-    todo = [x for x in V if props is None or x[1] in props]
+    todo = [x for x in V if props is None or x[1] in props] + patch_variants(props)
     t0 = time.time()
     results = []
     with cf.ThreadPoolExecutor(max_workers=jobs) as ex:
-        for res in ex.map(_run_variant, todo):
+        for res in ex.map(_run_any, todo):
             results.append(res)
     bad = [r for r in results if r[1] in ("MISSED", "FALSE-ALARM", "broken")]
     skipped = [r for r in results if r[1] == "skipped"]
@@ -192,10 +247,10 @@ def run_selftest(props: Optional[List[str]] = None, jobs: int = 16, quiet=False)
 
 
 def summary_for(props: List[str], jobs=16) -> Tuple[int, Dict[str, int], List[str]]:
-    todo = [x for x in V if x[1] in props]
+    todo = [x for x in V if x[1] in props] + patch_variants(props)
     results = []
     with cf.ThreadPoolExecutor(max_workers=jobs) as ex:
-        for res in ex.map(_run_variant, todo):
+        for res in ex.map(_run_any, todo):
             results.append(res)
     counts: Dict[str, int] = {}
     for r in results:
